@@ -24,7 +24,7 @@ Qed.
 (* a statement that issues pixel requests for the pixel list l *)
 Lemma exec_pixels : forall st s a l,
   good_state st -> g_text st = false ->
-  (match s with SReqs _ _ _ => False | _ => True end) ->
+  stmt_err s = 0 ->
   stmt_reqs st s = Ok (g_vp st, map (pix_req a) l, g_vp st) ->
   exists st', exec st s = (Ok tt, st')
     /\ cells_set (g_vp st) (the_page st) (the_page st') a
@@ -35,7 +35,7 @@ Proof.
   assert (Hpage : same_dims (g_vp st) (the_page st)).
   { rewrite Forall_forall in Hdims. apply Hdims. unfold the_page. apply nth_In. exact Hap. }
   destruct (vp_run_pixels (g_vp st) a l (the_page st) Hwf Hpage) as [m' [Hrun [Hd' Hspec]]].
-  rewrite Hrun. eexists. split; [destruct s; try reflexivity; destruct Hs|].
+  rewrite Hrun. rewrite Hs. cbn [Z.eqb]. eexists. split; [reflexivity|].
   rewrite the_page_set by exact Hap. split; [exact Hspec | split; reflexivity].
 Qed.
 
@@ -47,7 +47,7 @@ Theorem exec_pset : forall st x y a,
          (fun x' y' => (x', y') = (x, y) /\ vp_contains (g_vp st) x y = true).
 Proof.
   intros st x y a Hg Ht.
-  destruct (exec_pixels st (SPset x y a) a [(x, y)] Hg Ht I) as [st' [He [Hc _]]].
+  destruct (exec_pixels st (SPset x y a) a [(x, y)] Hg Ht eq_refl) as [st' [He [Hc _]]].
   { cbn [stmt_reqs]. rewrite gen_pset_is_model. reflexivity. }
   exists st'. split; [exact He|]. intros x' y'. destruct (Hc x' y') as [H1 H2]. split.
   - intros [E Hcn]. apply H1. injection E as E1 E2. subst. split; [left; reflexivity | exact Hcn].
@@ -78,7 +78,7 @@ Theorem exec_line : forall st x0 y0 x1 y1 a,
     /\ cells_set (g_vp st) (the_page st) (the_page st') a (fun x y => In (x, y) (line_pixels x0 y0 x1 y1)).
 Proof.
   intros st x0 y0 x1 y1 a Hg Ht H0 H1. pose proof Hg as [Hwf _].
-  destruct (exec_pixels st (SLine x0 y0 x1 y1 a 65535) a (line_pixels x0 y0 x1 y1) Hg Ht I) as [st' [He [Hc _]]].
+  destruct (exec_pixels st (SLine x0 y0 x1 y1 a 65535) a (line_pixels x0 y0 x1 y1) Hg Ht eq_refl) as [st' [He [Hc _]]].
   { cbn [stmt_reqs]. rewrite gen_line_is_model. cbn [bind]. unfold line_reqs.
     rewrite (cutoff_id _ _ _ Hwf H0), (cutoff_id _ _ _ Hwf H1).
     destruct (masked_solid (line_pixels x0 y0 x1 y1) 32768) as [Hm _]; [lia|]. rewrite Hm. reflexivity. }
@@ -98,7 +98,7 @@ Theorem exec_box : forall st x0 y0 x1 y1 a,
     /\ cells_set (g_vp st) (the_page st) (the_page st') a (on_perimeter x0 y0 x1 y1).
 Proof.
   intros st x0 y0 x1 y1 a Hg Ht H0 H1. pose proof Hg as [Hwf _].
-  destruct (exec_pixels st (SBox x0 y0 x1 y1 a 65535) a (box_pixels x0 y0 x1 y1) Hg Ht I) as [st' [He [Hc _]]].
+  destruct (exec_pixels st (SBox x0 y0 x1 y1 a 65535) a (box_pixels x0 y0 x1 y1) Hg Ht eq_refl) as [st' [He [Hc _]]].
   { cbn [stmt_reqs]. rewrite gen_box_is_model. cbn [bind]. unfold box_reqs.
     rewrite (cutoff_id _ _ _ Hwf H0), (cutoff_id _ _ _ Hwf H1).
     destruct (masked_solid (box_pixels x0 y0 x1 y1) 32768) as [Hm _]; [lia|]. rewrite Hm. reflexivity. }
